@@ -804,6 +804,21 @@ def handleSpec (name : String) (ins ans : List String) : String :=
       match parseScOuts ans with
       | some msgs => optVerdict (Spec.oracleSigC05One msgs)
       | none => "FAIL unparsable"
+    | "c10" =>
+      match arg.splitOn ",", ans with
+      | _, ["PANIC"] => "FAIL processing panicked"
+      | [h, pend], [msgs, fin] =>
+        match unhex h, pend.toNat?, parseScOuts [msgs] with
+        | some h, some pend, some ms =>
+          let after := ms.filter (fun o => o.t > pend)
+          let soms := after.filter (fun o => match o.msg with | .som t _ _ => t == h | _ => false)
+          if fin != "finite=1" then "FAIL a non-finite number appeared in the receiver state"
+          else match soms with
+            | [s] => if after.any (fun o => o.msg == .eom ∧ o.t ≥ s.t) then "ok"
+                     else "FAIL the transmission after the hostile prefix was decoded without its EndOfMessage"
+            | _ => s!"FAIL the clean transmission after the hostile prefix produced {soms.length} StartOfMessage with its text (receiver left deaf or confused)"
+        | _, _, _ => "FAIL unparsable"
+      | _, _ => "FAIL unparsable"
     | "c09" =>
       match arg.toNat?, parseSigEvs ans with
       | some rate, some evs => optVerdict (Spec.oracleSigC09 rate evs)
